@@ -30,7 +30,7 @@ theorem SedovFuncs_efun02_pullback (p : SedovFuncs.P) (v : ℝ) (hleaf : SedovFu
       * (SedovFuncs.h_fun p v * SedovFuncs.l_fun p v ^ (p.geometry - 1)) * SedovFuncs.dlamdv p v := by
   obtain ⟨h0, h1⟩ := (SedovFuncs_leaf1 p v).mp hleaf
   simp only [epv_tree, h0, h1, if_false, if_true]
-  simp only [epv_leaf]
+  simp only [epv_semi_leaf]
   ring
 
 /-- SedovFuncs (C11 companion): `efun01` is the λ-space kinetic-energy integrand g f² λ^(k-1), times
@@ -42,11 +42,11 @@ theorem SedovFuncs_efun01_pullback (p : SedovFuncs.P) (v : ℝ) (hleaf : SedovFu
   obtain ⟨h0, h1⟩ := (SedovFuncs_leaf1 p v).mp hleaf
   have hf : SedovFuncs.f_fun p v = p.a_val * v * SedovFuncs.l_fun p v := by
     simp only [epv_tree, h0, h1, if_false, if_true]
-    simp only [epv_leaf]
+    simp only [epv_semi_leaf]
   have he : SedovFuncs.efun01 p v = SedovFuncs.dlamdv p v * SedovFuncs.l_fun p v ^ (p.geometry + 1) * p.gpogm
       * SedovFuncs.g_fun p v * v ^ 2 := by
     simp only [epv_tree, h0, h1, if_false, if_true]
-    simp only [epv_leaf]
+    simp only [epv_semi_leaf]
   have hpow : SedovFuncs.l_fun p v ^ (p.geometry + 1) = SedovFuncs.l_fun p v ^ (p.geometry - 1) * SedovFuncs.l_fun p v ^ 2 := by
     have e : p.geometry + 1 = (p.geometry - 1) + (2 : ℝ) := by ring
     rw [e, Real.rpow_add hl]
@@ -61,7 +61,7 @@ theorem SedovFuncsO2_efun02_pullback (p : SedovFuncsO2.P) (v : ℝ) (hleaf : Sed
       * (SedovFuncsO2.h_fun p v * SedovFuncsO2.l_fun p v ^ (p.geometry - 1)) * SedovFuncsO2.dlamdv p v := by
   obtain ⟨h0, h1⟩ := (SedovFuncsO2_leaf1 p v).mp hleaf
   simp only [epv_tree, h0, h1, if_false, if_true]
-  simp only [epv_leaf]
+  simp only [epv_semi_leaf]
   ring
 
 /-- SedovFuncsO2 (C11 companion): `efun01` is the λ-space kinetic-energy integrand g f² λ^(k-1), times
@@ -73,11 +73,11 @@ theorem SedovFuncsO2_efun01_pullback (p : SedovFuncsO2.P) (v : ℝ) (hleaf : Sed
   obtain ⟨h0, h1⟩ := (SedovFuncsO2_leaf1 p v).mp hleaf
   have hf : SedovFuncsO2.f_fun p v = p.a_val * v * SedovFuncsO2.l_fun p v := by
     simp only [epv_tree, h0, h1, if_false, if_true]
-    simp only [epv_leaf]
+    simp only [epv_semi_leaf]
   have he : SedovFuncsO2.efun01 p v = SedovFuncsO2.dlamdv p v * SedovFuncsO2.l_fun p v ^ (p.geometry + 1) * p.gpogm
       * SedovFuncsO2.g_fun p v * v ^ 2 := by
     simp only [epv_tree, h0, h1, if_false, if_true]
-    simp only [epv_leaf]
+    simp only [epv_semi_leaf]
   have hpow : SedovFuncsO2.l_fun p v ^ (p.geometry + 1) = SedovFuncsO2.l_fun p v ^ (p.geometry - 1) * SedovFuncsO2.l_fun p v ^ 2 := by
     have e : p.geometry + 1 = (p.geometry - 1) + (2 : ℝ) := by ring
     rw [e, Real.rpow_add hl]
@@ -92,7 +92,7 @@ theorem SedovFuncsO3_efun02_pullback (p : SedovFuncsO3.P) (v : ℝ) (hleaf : Sed
       * (SedovFuncsO3.h_fun p v * SedovFuncsO3.l_fun p v ^ (p.geometry - 1)) * SedovFuncsO3.dlamdv p v := by
   obtain ⟨h0, h1⟩ := (SedovFuncsO3_leaf1 p v).mp hleaf
   simp only [epv_tree, h0, h1, if_false, if_true]
-  simp only [epv_leaf]
+  simp only [epv_semi_leaf]
   ring
 
 /-- SedovFuncsO3 (C11 companion): `efun01` is the λ-space kinetic-energy integrand g f² λ^(k-1), times
@@ -104,11 +104,11 @@ theorem SedovFuncsO3_efun01_pullback (p : SedovFuncsO3.P) (v : ℝ) (hleaf : Sed
   obtain ⟨h0, h1⟩ := (SedovFuncsO3_leaf1 p v).mp hleaf
   have hf : SedovFuncsO3.f_fun p v = p.a_val * v * SedovFuncsO3.l_fun p v := by
     simp only [epv_tree, h0, h1, if_false, if_true]
-    simp only [epv_leaf]
+    simp only [epv_semi_leaf]
   have he : SedovFuncsO3.efun01 p v = SedovFuncsO3.dlamdv p v * SedovFuncsO3.l_fun p v ^ (p.geometry + 1) * p.gpogm
       * SedovFuncsO3.g_fun p v * v ^ 2 := by
     simp only [epv_tree, h0, h1, if_false, if_true]
-    simp only [epv_leaf]
+    simp only [epv_semi_leaf]
   have hpow : SedovFuncsO3.l_fun p v ^ (p.geometry + 1) = SedovFuncsO3.l_fun p v ^ (p.geometry - 1) * SedovFuncsO3.l_fun p v ^ 2 := by
     have e : p.geometry + 1 = (p.geometry - 1) + (2 : ℝ) := by ring
     rw [e, Real.rpow_add hl]
@@ -256,14 +256,14 @@ noncomputable def exO3 : SedovFuncsO3.P :=
 example : (0 < exStd.a_val * (3/10) ∧ 0 < exStd.b_val * (exStd.c_val * (3/10) - 1) ∧ 0 < exStd.d_val * (1 - exStd.e_val * (3/10)))
     ∧ SedovFuncs.leaf exStd (3/10) = 1 ∧ exStd.a_val ≠ 0 := by
   refine ⟨by norm_num [exStd], ?_, by norm_num [exStd]⟩
-  rw [SedovFuncs_leaf1]; simp only [epv_cond, exStd]; norm_num
+  rw [SedovFuncs_leaf1]; simp only [epv_semi_cond, exStd]; norm_num
 example : (0 < exO2.a_val * (4/5) ∧ 0 < exO2.b_val * (exO2.c_val * (4/5) - 1) ∧ exO2.a_val * (4/5) - 1 / 2 * exO2.gamp1 / exO2.gamma ≠ 0)
     ∧ SedovFuncsO2.leaf exO2 (4/5) = 1 := by
   refine ⟨by norm_num [exO2], ?_⟩
-  rw [SedovFuncsO2_leaf1]; simp only [epv_cond, exO2]; norm_num
+  rw [SedovFuncsO2_leaf1]; simp only [epv_semi_cond, exO2]; norm_num
 example : (0 < exO3.a_val * (1/2) ∧ 0 < exO3.b_val * (exO3.c_val * (1/2) - 1) ∧ 0 < exO3.b_val * (1 - 1 / 2 * exO3.xg2 * (1/2)))
     ∧ SedovFuncsO3.leaf exO3 (1/2) = 1 := by
   refine ⟨by norm_num [exO3], ?_⟩
-  rw [SedovFuncsO3_leaf1]; simp only [epv_cond, exO3]; norm_num
+  rw [SedovFuncsO3_leaf1]; simp only [epv_semi_cond, exO3]; norm_num
 
 end EPV.C11
